@@ -1,7 +1,7 @@
 """E9 guard / bound reasoning: branch conditions that dominate a site, normalised to facts over canonical
 expressions; a one-symbol difference-bound implication check (no solver)."""
 import re
-from .cfg import dominators, reachable_from
+from .cfg import dominators, reachable_from, feasible_reachable
 from .vflow import Canon, strip_int_casts
 from .ir import INT
 
@@ -27,11 +27,16 @@ def dominating_edges(fn, block):
         if nb is None or nb is b:
             break
         b = nb
-    for src in doms:
+    from .cfg import correlated_conditions
+    cands = doms
+    if correlated_conditions(fn):
+        # with branches tied together by a common condition an edge can be unavoidable although its source does not dominate
+        cands = doms + [b_ for b_ in fn.order if b_ not in doms and len(b_.succs) >= 2 and block in reachable_from(b_)]
+    for src in cands:
         if len(src.succs) < 2:
             continue
         for dst in src.succs:
-            seen = reachable_from(entry, avoid_edges={(src, dst)})
+            seen = feasible_reachable(fn, entry, avoid_edges={(src, dst)})
             if block not in seen:
                 out.append((src, dst))
     fn._cache[key] = out
